@@ -239,6 +239,120 @@ static void epilogue_vector(void)
     vec_audit("clear");
 }
 
+/* ======================= objects past 64 KiB / 128 KiB (growth policies with thresholds) ======================= */
+static cstl_vector_t BV;
+static size_t bv_size;
+static uint32_t bv_val(size_t i) { return (uint32_t)(i * 2654435761u + 12345u); }
+static void bigvec_audit(const char *after)
+{
+    size_t i, bs = 0;
+    char key[96];
+    snprintf(key, sizeof(key), "faults.bigvector.state-changed.%s", after);
+    if (cstl_vector_size(&BV) != bv_size) vrt_fail(key, "size %zu, model %zu", cstl_vector_size(&BV), bv_size);
+    VRT_CHECK(cstl_vector_capacity(&BV) >= bv_size, "faults.bigvector.cap-below-size", "capacity below size");
+    if (cstl_vector_capacity(&BV) > 0)
+        VRT_CHECK(vrt_lib_block(cstl_vector_data(&BV), &bs) != NULL && bs >= (cstl_vector_capacity(&BV) + 1) * 4, "faults.bigvector.storage",
+                  "capacity %zu has no storage of that size behind it (block of %zu bytes)", cstl_vector_capacity(&BV), bs);
+    for (i = 0; i < bv_size; i++) if (*(uint32_t *)cstl_vector_at(&BV, i) != bv_val(i)) vrt_fail(key, "element %zu changed", i);
+    /* every slot up to the capacity and the scratch slot behind it is writable (red zones) */
+    if (cstl_vector_capacity(&BV) > 0) memset((char *)cstl_vector_data(&BV) + bv_size * 4, 0xEE, (cstl_vector_capacity(&BV) + 1 - bv_size) * 4);
+}
+static void bigvec_resize(size_t n)
+{
+    const size_t cap = cstl_vector_capacity(&BV);
+    size_t i;
+    CALL_BEGIN("vector.resize", "%ld (size %ld, big)", n, bv_size);
+    if (VRT_ABORTS(cstl_vector_resize(&BV, n))) {
+        VRT_CHECK(n > cap, "faults.bigvector.resize.abort-within-capacity", "resize within capacity aborted");
+        require_fired("vector.resize", "abort"); count_fail("vector.resize.abort");
+    } else {
+        for (i = bv_size; i < n; i++) *(uint32_t *)cstl_vector_at(&BV, i) = bv_val(i);
+        bv_size = n;
+    }
+    bigvec_audit("resize");
+}
+static void bigvec_reserve(size_t n)
+{
+    const size_t before = cstl_vector_capacity(&BV);
+    CALL_BEGIN("vector.reserve", "%ld (cap %ld, big)", n, before);
+    cstl_vector_reserve(&BV, n);
+    if (cstl_vector_capacity(&BV) != before) VRT_CHECK(cstl_vector_capacity(&BV) >= n, "faults.bigvector.reserve.cap", "capacity below the request");
+    else if (n > before) { require_fired("vector.reserve", "no growth"); count_fail("vector.reserve"); }
+    bigvec_audit("reserve");
+}
+static void bigvec_shrink(void)
+{
+    CALL_BEGIN("vector.shrink_to_fit", "(size %ld, big)", bv_size, 0);
+    cstl_vector_shrink_to_fit(&BV);
+    bigvec_audit("shrink_to_fit");
+}
+static void script_bigvector(void)
+{
+    bv_size = 0;
+    cstl_vector_init(&BV, 4);
+    bigvec_resize(17000); bigvec_resize(30000); bigvec_reserve(50000); bigvec_shrink(); bigvec_resize(70000);
+    bigvec_resize(1000); bigvec_shrink(); bigvec_resize(40000); bigvec_reserve(40001); bigvec_resize(40001); bigvec_resize(33000); bigvec_shrink();
+}
+static void epilogue_bigvector(void)
+{
+    bigvec_resize(20); bigvec_resize(36000); bigvec_shrink();
+    cstl_vector_clear(&BV); bv_size = 0;
+    bigvec_audit("clear");
+}
+static cstl_string_t BS;
+static char *bs_ref; static size_t bs_len;
+static void bigstr_audit(const char *after)
+{
+    size_t bs = 0;
+    char key[96];
+    snprintf(key, sizeof(key), "faults.bigstring.content-changed.%s", after);
+    if (cstl_string_size(&BS) != bs_len) vrt_fail(key, "size %zu, model %zu", cstl_string_size(&BS), bs_len);
+    if (memcmp(cstl_string_str(&BS), bs_ref, bs_len + 1) != 0) vrt_fail(key, "characters (or the terminator) differ from the reference");
+    if (cstl_string_capacity(&BS) > 0)
+        VRT_CHECK(vrt_lib_block(cstl_string_str(&BS), &bs) != NULL && bs >= cstl_string_capacity(&BS) + 1, "faults.bigstring.storage",
+                  "capacity %zu has no storage of that size behind it (block of %zu bytes)", cstl_string_capacity(&BS), bs);
+}
+static void bigstr_insch(size_t pos, size_t cnt, char c)
+{
+    if (pos > bs_len) pos = bs_len;
+    CALL_BEGIN("string.insert_ch", "pos %ld cnt %ld (big)", pos, cnt);
+    if (VRT_ABORTS(cstl_string_insert_ch(&BS, pos, cnt, c))) { require_fired("string.insert_ch", "abort"); count_fail("string.growth.abort"); }
+    else { memmove(bs_ref + pos + cnt, bs_ref + pos, bs_len - pos + 1); memset(bs_ref + pos, c, cnt); bs_len += cnt; }
+    bigstr_audit("insert_ch");
+}
+static void bigstr_ins(size_t pos, const char *str)
+{
+    const size_t n = strlen(str);
+    if (pos > bs_len) pos = bs_len;
+    CALL_BEGIN("string.insert_str", "pos %ld len %ld (big)", pos, n);
+    if (VRT_ABORTS(cstl_string_insert_str(&BS, pos, str))) { require_fired("string.insert_str", "abort"); count_fail("string.growth.abort"); }
+    else { memmove(bs_ref + pos + n, bs_ref + pos, bs_len - pos + 1); memcpy(bs_ref + pos, str, n); bs_len += n; }
+    bigstr_audit("insert_str");
+}
+static void bigstr_erase(size_t pos, size_t n)
+{
+    if (pos >= bs_len) return;
+    if (n > bs_len - pos) n = bs_len - pos;
+    CALL_BEGIN("string.erase", "pos %ld n %ld (big)", pos, n);
+    cstl_string_erase(&BS, pos, n);
+    memmove(bs_ref + pos, bs_ref + pos + n, bs_len - pos - n + 1); bs_len -= n;
+    bigstr_audit("erase");
+}
+static void script_bigstring(void)
+{
+    if (bs_ref == NULL) bs_ref = vrt_alloc(400000);
+    bs_len = 0; bs_ref[0] = 0;
+    cstl_string_init(&BS);
+    bigstr_insch(0, 70000, 'a'); bigstr_ins(100, "0123456789"); bigstr_insch(5, 40000, 'b'); bigstr_erase(3, 100000);
+    bigstr_insch(2, 140000, 'c'); bigstr_ins(0, "front"); bigstr_insch(150000, 70000, 'd'); bigstr_erase(10, 200000);
+}
+static void epilogue_bigstring(void)
+{
+    bigstr_insch(1, 90000, 'e'); bigstr_ins(3, "xyz");
+    cstl_string_clear(&BS); bs_len = 0; bs_ref[0] = 0;
+    bigstr_audit("clear");
+}
+
 /* ======================= strings (narrow and wide from one body) ======================= */
 #define DEFSTR(P, CH, LEN, CMP, CPY, LIT)                                                                      \
 static struct cstl_##P P##_s, P##_t;                                                                             \
@@ -333,6 +447,13 @@ static void P##_erase(int w, size_t pos, size_t n)                              
     P##_len[w] -= n;                                                                                             \
     P##_audit("erase");                                                                                          \
 }                                                                                                                \
+static void P##_clear1(int w)                                                                                    \
+{                                                                                                                \
+    CALL_BEGIN(#P ".clear", "s%ld", w, 0);                                                                       \
+    cstl_##P##_clear(P##_obj(w));                                                                                \
+    P##_len[w] = 0; P##_ref[w][0] = 0;                                                                           \
+    P##_audit("clear");                                                                                          \
+}                                                                                                                \
 static void script_##P(void)                                                                                     \
 {                                                                                                                \
     cstl_##P##_init(&P##_s); cstl_##P##_init(&P##_t);                                                            \
@@ -344,6 +465,8 @@ static void script_##P(void)                                                    
     P##_ins(0, 1, LIT("0123456789")); P##_ins(0, 4, LIT("abcdefghijklmnopqrstuvwxyz")); P##_substr(3, 20);      \
     P##_insch(0, 0, 60, LIT('-')); P##_resize(1, 150); P##_ins(1, 10, LIT("tail")); P##_erase(0, 2, 50);         \
     P##_reserve(0, 300); P##_ins(0, 0, LIT("front")); P##_resize(0, 260); P##_set(1, LIT("short"));              \
+    /* a destination that is in use but whose buffer is too small for the result: substr has to grow it */       \
+    P##_clear1(1); P##_set(1, LIT("ab")); P##_substr(0, 120); P##_clear1(1); P##_set(1, LIT("cd")); P##_substr(5, 300); \
 }                                                                                                                \
 static void epilogue_##P(void)                                                                                   \
 {                                                                                                                \
@@ -630,6 +753,8 @@ static const struct script scripts[] = {
     { "hash", script_hash, epilogue_hash },
     { "pointers", script_pointers, epilogue_pointers },
     { "arrays", script_arrays, epilogue_arrays },
+    { "bigvector", script_bigvector, epilogue_bigvector },
+    { "bigstring", script_bigstring, epilogue_bigstring },
 };
 #define NSCRIPT ((int)(sizeof(scripts) / sizeof(scripts[0])))
 static uint64_t Nalloc[NSCRIPT];
